@@ -351,11 +351,6 @@ impl Term {
                     let char_iter = iter.base_iter.heap.char_iter(pstr_loc);
 
                     match tail {
-                        Term::Atom(atom) => {
-                            if atom == "[]" {
-                                term_stack.push(Term::String(atom.as_str().to_string()));
-                            }
-                        },
                         Term::List(l) if l.is_empty() => {
                             term_stack.push(Term::String(char_iter.collect()));
                         }
@@ -415,8 +410,12 @@ pub struct QueryState<'a> {
 
 impl Drop for QueryState<'_> {
     fn drop(&mut self) {
-        // FIXME: This may be wrong if the iterator is not fully consumed, but from testing it
-        // seems fine. Is this really ok?
+        // NOTE: a partially consumed query leaves choice points above its
+        // sentinel choice point; discard them together with the sentinel.
+        if self.machine.machine_st.b > self.stub_b {
+            self.machine.machine_st.b = self.stub_b;
+        }
+
         self.machine.trust_me();
     }
 }
